@@ -1,6 +1,7 @@
 import GS.Proto
 import GS.Check.Brute
 import GS.Check.Rup
+import GS.Check.MaxSatBrute
 /-!
 # GS.Ops — the operations the driver answers (one line in, one line out)
 -/
@@ -89,9 +90,31 @@ def opSubMulti (fs : List String) : Option String := do
   let xs ← parseGroups xs; let ys ← parseGroups ys
   some (b01 (subMultiset xs ys))
 
+/-- soft constraints: groups `weight deg c l c l …` -/
+def parseSoft (s : String) : Option (List Soft) := do
+  let gs ← parseGroups s
+  gs.mapM (fun g => match g with
+    | [] => none
+    | w :: rest => (linOfInts rest).map (fun c => ⟨w, c⟩))
+
+/-- `maxsat n | hard | soft` → `none` | `some k` -/
+def opMaxSat (fs : List String) : Option String := do
+  let [n, h, s] := fs | none
+  let n ← parseNat n; let h ← parseProblem h; let s ← parseSoft s
+  if !(h.wf n && softWf n s) then some "wf-error" else
+  match bruteMaxSat n h s with
+  | none => some "none"
+  | some k => some s!"some {k}"
+
+/-- `violated soft | model` → total weight of violated soft constraints -/
+def opViolated (fs : List String) : Option String := do
+  let [s, m] := fs | none
+  let s ← parseSoft s; let m ← parseBools m
+  some (toString (violated (asgOf m) s))
+
 def table : List (String × (List String → Option String)) :=
   [("sat", opSat), ("eval", opEval), ("opt", opOpt), ("cost", opCost), ("count", opCount),
    ("models", opModels), ("ent", opEnt), ("cnfsat", opCnfSat), ("rup", opRup), ("up", opUp),
-   ("mus", opMus), ("submulti", opSubMulti)]
+   ("mus", opMus), ("submulti", opSubMulti), ("maxsat", opMaxSat), ("violated", opViolated)]
 
 end GS.Ops
